@@ -122,3 +122,15 @@ Definition column_expected (s e : Z) (iv : interval) (ps : list period) (d : Z) 
   | Once => if d <=? e then Some e else None
   | _ => if e <? s then None else align_spec ps d
   end.
+
+(* ---- the window the commands partition: the --from/--to period clipped to the journal's period
+   (cmd/flags Multiperiod.Partition: mp.period.Value().Clip(clip)).  By the property the reporting periods
+   partition "the requested window", and a date outside the journal's period or outside the requested period
+   belongs to no reporting period: the clipped window is the intersection; when the two periods do not meet it
+   is an empty (inverted) window, which contains no date (seeded change C11c-clip-empty-window turned it into a
+   one-day window and was not noticed by the library-level cases). *)
+Definition clip_ok_b (w j c : period) : bool :=
+  let s := Z.max (p_start w) (p_start j) in
+  let e := Z.min (p_end w) (p_end j) in
+  if s <=? e then (p_start c =? s) && (p_end c =? e)
+  else p_end c <? p_start c.
